@@ -49,7 +49,7 @@ def q__Point____rmul__(self, other):
 def q__Point____neg__(self):
     if self[1] is None:
         return self
-    return self.__class__(self[0], self._curve.p() - self[1], self._curve)
+    return self._curve.Point(self[0], self._curve.p() - self[1])
 
 
 # pycoin/ecdsa/Point.py :: Point.curve
